@@ -715,6 +715,107 @@ func Sentence(t *rapid.T, p *Plain, budget int) []int {
 	return out
 }
 
+// LongSentence derives a sentence of roughly target tokens (more than any stack or buffer of the
+// generated parser holds at first): productions are picked at random until target tokens have
+// been produced, then every open symbol is closed by a shortest derivation. nil if the start
+// symbol derives nothing or the grammar cannot grow.
+func LongSentence(t *rapid.T, p *Plain, target int) []int {
+	h := p.MinHeights()
+	const inf = 1 << 20
+	ph := func(pr PProd) int {
+		m := 0
+		for _, x := range pr.RHS {
+			if h[x] > m {
+				m = h[x]
+			}
+		}
+		if m >= inf {
+			return inf
+		}
+		return m + 1
+	}
+	if h[p.Prods[0].LHS] >= inf {
+		return nil
+	}
+	// grow[x]: x lies on a cycle of the "mentions" relation or reaches a symbol that does
+	nsym := len(h)
+	reach := make([][]bool, nsym)
+	for i := range reach {
+		reach[i] = make([]bool, nsym)
+	}
+	for _, pr := range p.Prods {
+		if ph(pr) >= inf {
+			continue
+		}
+		for _, x := range pr.RHS {
+			if !p.IsTerm(x) {
+				reach[pr.LHS][x] = true
+			}
+		}
+	}
+	for k := 0; k < nsym; k++ {
+		for i := 0; i < nsym; i++ {
+			if reach[i][k] {
+				for j := 0; j < nsym; j++ {
+					if reach[k][j] {
+						reach[i][j] = true
+					}
+				}
+			}
+		}
+	}
+	grow := make([]bool, nsym)
+	for i := 0; i < nsym; i++ {
+		for j := 0; j < nsym; j++ {
+			if (i == j || reach[i][j]) && reach[j][j] {
+				grow[i] = true
+			}
+		}
+	}
+	var out []int
+	depth, calls := 0, 0
+	var derive func(sym int)
+	derive = func(sym int) {
+		if p.IsTerm(sym) {
+			out = append(out, sym)
+			return
+		}
+		calls++ // growth is budgeted by expansions, not by tokens (left recursion emits nothing on the way down)
+		depth++
+		defer func() { depth-- }()
+		var cands []int
+		for _, q := range p.ByLHS[sym] {
+			if ph(p.Prods[q]) >= inf {
+				continue
+			}
+			if calls < target && depth < 4000 || ph(p.Prods[q]) == h[sym] {
+				cands = append(cands, q)
+			}
+		}
+		q := cands[ri(t, 0, len(cands)-1, "ld")]
+		if calls < target && depth < 4000 {
+			// prefer productions through which the derivation can keep growing
+			var rec []int
+			for _, c := range cands {
+				for _, x := range p.Prods[c].RHS {
+					if !p.IsTerm(x) && grow[x] {
+						rec = append(rec, c)
+						break
+					}
+				}
+			}
+			if len(rec) > 0 {
+				q = rec[ri(t, 0, len(rec)-1, "ldr")]
+			}
+		}
+		for _, x := range p.Prods[q].RHS {
+			derive(x)
+		}
+	}
+	derive(p.Prods[0].RHS[0])
+	return out
+}
+
 // StripErr removes ERROR terminals (index 1).
 func StripErr(w []int) []int {
 	var o []int
@@ -961,9 +1062,21 @@ func productive(g *G) bool {
 // InputReductions lists one-step simplifications of a token sequence.
 func InputReductions(w []int) [][]int {
 	var out [][]int
+	n := len(w)
+	if n > 48 {
+		// long inputs: delete aligned blocks of n/2, n/4, n/8, n/16 tokens (30 candidates per round,
+		// big blocks first); single tokens once the input is short
+		for _, parts := range []int{2, 4, 8, 16} {
+			size := (n + parts - 1) / parts
+			for lo := 0; lo < n; lo += size {
+				hi := min(n, lo+size)
+				out = append(out, append(append([]int(nil), w[:lo]...), w[hi:]...))
+			}
+		}
+		return out
+	}
 	for i := range w {
-		n := append(append([]int(nil), w[:i]...), w[i+1:]...)
-		out = append(out, n)
+		out = append(out, append(append([]int(nil), w[:i]...), w[i+1:]...))
 	}
 	return out
 }
